@@ -573,6 +573,26 @@ Case gen_case(const std::string &prop, const std::string &tier, uint64_t verif_s
             gen_history(r, pf, plan);
         }
     }
+    if (gp == "C07" && r.chance(1, 12)) {
+        // a point rate that is not zero but below the 1e-4 Hz at which the header follows it: "no rate" guards must look at
+        // POINT:RATE, not at the header. Only in histories without anything analog: next to an analog rate such a point rate
+        // means tens of millions of sub-frames per frame (for the library and for the caller frames the executor builds)
+        bool analog = false;
+        for (const Step &st : plan.steps)
+            if (st.op == OP_DECL_ANALOG || st.op == OP_COL_ANALOG || st.op == OP_LOAD || st.op == OP_RELOAD || (st.op == OP_SET_RATE && !st.i.empty() && st.i[0] == 1)) analog = true;
+        if (!analog)
+            for (Step &st : plan.steps)
+                if (st.op == OP_SET_RATE && st.i.size() > 1 && st.i[0] == 0) { st.i[1] = 0x38500000; break; } // ~5e-5
+    }
+    if ((gp == "C10" || gp == "C09") && r.chance(1, 20) && !plan.steps.empty()) {
+        // a parameter name beyond the 127 characters the file format can hold, sent to a group that does not exist yet: in
+        // memory that is an ordinary call (what a save makes of it is C17's subject); a library that refuses it must refuse
+        // it before the group is created
+        Step st; st.op = OP_PARAM;
+        st.s = {"LONGNAMES" + tos(r.below(100)), std::string(128 + r.below(12), 'N'), ""};
+        st.i = {1, 0, 0, -1, 1, 7};
+        plan.steps.insert(plan.steps.begin() + static_cast<long>(1 + r.below(plan.steps.size())), st);
+    }
     c.plans.push_back(plan);
     if (gp == "C15") gen_c15(r, c, thorough);
     if (gp == "C16") {
